@@ -96,9 +96,16 @@ func VerifHarness_C01_withdrawals() {
 		zzverif.Assert(got[i] == want[i], "expected withdrawal i is the spec's (index, validator, address, amount)")
 	}
 	// a payload carrying exactly the expected withdrawals is accepted and applied as the spec's process_withdrawals
-	corrupt := zzverif.Choose(2) == 1 && len(want) > 0
+	mode := zzverif.Choose(4) // 0 exact, 1 one entry altered, 2 one surplus entry appended, 3 last entry missing
+	corrupt := (mode == 1 || mode == 3) && len(want) > 0 || mode == 2
 	payload := append([]common.Withdrawal(nil), want...)
-	if corrupt {
+	if mode == 2 {
+		extra := common.Withdrawal{Index: common.WithdrawalIndex(wIndex + uint64(len(want))), ValidatorIndex: common.ValidatorIndex(zzverif.Choose(n)), Amount: common.Gwei(zzverif.NondetU8())}
+		extra.Address[0] = zzverif.NondetU8()
+		payload = append(payload, extra)
+	} else if mode == 3 && len(want) > 0 {
+		payload = payload[:len(payload)-1]
+	} else if corrupt {
 		k := zzverif.Choose(len(want))
 		switch zzverif.Choose(4) {
 		case 0:
@@ -112,7 +119,7 @@ func VerifHarness_C01_withdrawals() {
 		}
 	}
 	err = ProcessWithdrawals(context.Background(), spec, st, vPayload{payload})
-	zzverif.Assert((err == nil) == !corrupt, "ProcessWithdrawals accepts exactly the expected withdrawals")
+	zzverif.Assert((err == nil) == !corrupt, "ProcessWithdrawals accepts exactly the expected withdrawals (no altered, surplus or missing entry)")
 	if corrupt {
 		return
 	}
